@@ -105,6 +105,64 @@ Definition canonical_perf (nb ms : Z) (es : list pevent) : bool :=
   | None => false
   end.
 
+(** * the wider class: one pitch may sound twice at once.
+    [_to_sequence] pairs NOTE_OFFs with the pending NOTE_ONs of their pitch first-in-first-out, so
+    an event list denotes notes in which a later-started note of a pitch never ends before an
+    earlier-started one (un-nested).  [canonical_perf_w] is [canonical_perf] with re-opening of an
+    open pitch allowed and the two order rules non-strict: NOTE_ONs of a step in non-decreasing
+    pitch order, NOTE_OFFs of a step in non-decreasing (start step, pitch) order of the notes the
+    FIFO pairing gives them.  [no_nested_same_pitch]: BOOLEAN hypothesis on the quantized input of
+    the extractor: no note of a pitch starts strictly later and ends strictly earlier than another
+    note of that pitch (equal starts are harmless). *)
+Definition key_le (a : option (Z * Z)) (s q : Z) : bool :=
+  match a with None => true | Some (s', q') => (s' <? s) || ((s' =? s) && (q' <=? q)) end.
+
+Definition pf_canon_step_w (nb ms : Z) (c : pf_cst) (e : pevent) : option pf_cst :=
+  let '(ty, v) := e in
+  if ty =? EV_NOTE_ON then
+    if (negb (nb =? 0) && (cs_vbin c =? 0))
+       || negb (match cs_onp c with None => true | Some q => q <=? v end)
+    then None
+    else Some (mkPfCst (cs_step c) (cs_open c ++ [(v, cs_step c)]) (cs_vbin c) POn (cs_offkey c) (Some v))
+  else if ty =? EV_NOTE_OFF then
+    if is_pvel (cs_prev c) || negb (match cs_onp c with None => true | Some _ => false end) then None
+    else match take_open v (cs_open c) with
+         | None => None
+         | Some ((q, s), op') =>
+             if key_le (cs_offkey c) s q && (s <? cs_step c)
+             then Some (mkPfCst (cs_step c) op' (cs_vbin c) POff (Some (s, q)) None)
+             else None
+         end
+  else if ty =? EV_TIME_SHIFT then
+    if is_pvel (cs_prev c) || negb ((1 <=? v) && (v <=? ms))
+       || negb (match cs_prev c with PShift u => u =? ms | _ => true end)
+    then None
+    else Some (mkPfCst (cs_step c + v) (cs_open c) (cs_vbin c) (PShift v) None None)
+  else if ty =? EV_VELOCITY then
+    if (nb =? 0) || is_pvel (cs_prev c) || negb (1 <=? v) || (v =? cs_vbin c) then None
+    else Some (mkPfCst (cs_step c) (cs_open c) v PVel (cs_offkey c) (cs_onp c))
+  else None.
+
+Fixpoint pf_canon_scan_w (nb ms : Z) (es : list pevent) (c : pf_cst) : option pf_cst :=
+  match es with
+  | [] => Some c
+  | e :: r => match pf_canon_step_w nb ms c e with
+              | Some c' => pf_canon_scan_w nb ms r c'
+              | None => None
+              end
+  end.
+
+Definition canonical_perf_w (nb ms : Z) (es : list pevent) : bool :=
+  match pf_canon_scan_w nb ms es (mkPfCst 0 [] 0 PStart None None) with
+  | Some c => is_nil (cs_open c)
+              && match cs_prev c with PStart | POff => true | _ => false end
+  | None => false
+  end.
+
+Definition no_nested_same_pitch (l : list note) : bool :=
+  forallb (fun a => forallb (fun b =>
+    negb ((n_pitch a =? n_pitch b) && (n_qstart a <? n_qstart b) && (n_qend b <? n_qend a))) l) l.
+
 (** * canonical NotePerformance tuple lists *)
 Fixpoint np_canon_scan (nb ms md : Z) (evs : list np_event) (prev : option Z) : bool :=
   match evs with
